@@ -1,7 +1,9 @@
 import RichModel.Model.Cells
 /-
 Model of rich/segment.py (line shaping part): split_lines, split_and_crop_lines,
-adjust_line_length, set_shape, simplify.  Styles are opaque values of a type `σ`
+adjust_line_length, set_shape, simplify; and, further down (added in the deepening round of C13), the style-level
+helpers apply_style, filter_control, strip_styles, strip_links, remove_color, get_shape, whose `Style` operations
+are parameters.  Styles are opaque values of a type `σ`
 compared with `==` (the driver instantiates σ := Nat, a style id).
 -/
 namespace RichModel
